@@ -325,6 +325,18 @@ func TestVerifC05(t *testing.T) {
 			res.HarnessErr = "HARNESS: " + err.Error()
 			break
 		}
+		// entries whose effect depends on the time between entries stay in the log: a services link reserves a
+		// nickname for a millisecond; after that time a new user takes it and joins #c (A and B are served the
+		// JOIN).  A node that applies the log later than it was accepted must come to the same result.
+		S := must(c05Cmd{Op: "create"})
+		for _, l := range []string{"PASS :services=svcpw", "SERVER services.robustirc.net 1 :Services", "SVSHOLD guest 0.001 :reserved"} {
+			must(c05Cmd{Op: "post", Sid: S.Sid, Auth: S.Auth, Num: S.Num, Data: l, Cmid: next()})
+		}
+		time.Sleep(3 * time.Millisecond)
+		G := must(c05Cmd{Op: "create"})
+		for _, l := range []string{"NICK guest", "USER g 0 * :g", "JOIN #c"} {
+			must(c05Cmd{Op: "post", Sid: G.Sid, Auth: G.Auth, Num: G.Num, Data: l, Cmid: next()})
+		}
 		sess := map[string]c05Resp{"A": A, "B": B}
 		posted := map[string][]*c05Posted{}
 		var lastA *c05Posted
@@ -414,6 +426,10 @@ func TestVerifC05(t *testing.T) {
 					}
 				}
 			}
+		}
+		// what the sessions are served before any fault
+		for _, who := range []string{"A", "B"} {
+			before[who] = readStream(who)
 		}
 		for oi, op := range seq {
 			res.Ops++
